@@ -90,6 +90,7 @@ package formula
 //@   panics never
 //@   ensures scanFrame(s) && s.pos == old(s.pos) && nd(s) >= old(nd(s))
 
+
 //@ func (*Scanner).scanHexDigits
 //@   tags [C14,C01,C13]
 //@   requires scanFrame(s)
@@ -97,13 +98,15 @@ package formula
 //@   panics never
 //@   ensures scanFrame(s) && s.pos >= old(s.pos) && nd(s) >= old(nd(s))
 //@   ensures old(s.pos) < s.end && old(cur(s)) == 92 ==> result == "" && s.pos == old(s.pos)
+//@   ensures allHexLower(result) && (scanAsManyAsPossible || len(result) <= max(count, 0))
 //@   loop 1: invariant scanFrame(s) && s.pos >= old(s.pos) && 0 <= underlineStart && underlineStart <= s.pos && nd(s) >= old(nd(s))
 //@           invariant old(s.pos) < s.end && old(cur(s)) == 92 ==> len(valueChars) == 0 && s.pos == old(s.pos) && !isPreviousTokenSeparator
+//@           invariant allHexLower(valueChars) && (scanAsManyAsPossible || len(valueChars) <= max(count, 0))
 //@           decreases s.end - s.pos
 
 //@ func (*Scanner).scanExactNumberOfHexDigits
 //@   tags [C14,C01,C13]
-//@   requires scanFrame(s)
+//@   requires scanFrame(s) && count <= 15
 //@   assigns s.pos, s.tokenFlags, owner(s).parseDiagnostics
 //@   panics never
 //@   ensures scanFrame(s) && s.pos >= old(s.pos) && nd(s) >= old(nd(s))
@@ -111,7 +114,7 @@ package formula
 
 //@ func (*Scanner).scanHexadecimalEscape
 //@   tags [C14,C01,C13]
-//@   requires scanFrame(s)
+//@   requires scanFrame(s) && numDigits <= 15
 //@   assigns s.pos, s.tokenFlags, owner(s).parseDiagnostics
 //@   panics never
 //@   ensures scanFrame(s) && s.pos >= old(s.pos) && nd(s) >= old(nd(s))
@@ -163,6 +166,16 @@ package formula
 //@   loop 2: invariant scanFrame(s) && s.startPos == old(s.pos) && nd(s) >= old(nd(s)) && s.tokenPos < s.pos
 //@           invariant tar@L2 == -1 || (s.pos <= tar@L2 && tar@L2 <= s.end)
 //@           decreases tar@L2 >= 0 ? s.end - tar@L2 + 1 : 0
+
+//@ spec kw(text string) int := text == "true" ? SK_TrueKeyword : text == "false" ? SK_FalseKeyword : text == "null" ? SK_NullKeyword : text == "this" ? SK_ThisKeyword : text == "ctx" ? SK_CtxKeyword : text == "typeof" ? SK_TypeofKeyword : SK_Unknown
+
+// TODO(verify init): the keyword table is built by init from tokens[]; until init is
+// under contract this is an assumption.
+//@ func KeywordFromString
+//@   trusted
+//@   panics never
+//@   noalloc
+//@   ensures result == kw(text)
 
 //@ func (*Scanner).peek
 //@   tags [C14,C01]
